@@ -22,7 +22,8 @@ func (x *Executor) execInstr(fr *Frame, in ssa.Instruction, st *State, reach str
 			return
 		}
 		r := x.allocRef(st, t.Comment)
-		v := Val{T: r, Ty: t.Type()}
+		v := Val{T: r, Ty: t.Type(), Taint: []string{r}}
+		st.fresh[r] = et
 		fr.vals[t] = v
 		// zero-initialise
 		a := x.deref(v)
@@ -45,12 +46,12 @@ func (x *Executor) execInstr(fr *Frame, in ssa.Instruction, st *State, reach str
 			}
 			if isFlattened(fty) {
 				// interior pointer to a nested struct/array: a first-class derived reference
-				fr.vals[t] = Val{T: u.define("sub", "Int", u.subRef(pt, stt.Field(t.Field).Name(), ref)), Ty: t.Type()}
+				fr.vals[t] = Val{T: u.define("sub", "Int", u.subRef(pt, stt.Field(t.Field).Name(), ref)), Ty: t.Type(), Taint: xv.Taint}
 				return
 			}
 			a = &Addr{Kind: "field", Ref: ref, Struct: pt, Field: stt.Field(t.Field).Name(), Ty: fty}
 		}
-		fr.vals[t] = Val{T: "0", Ty: t.Type(), Addr: a}
+		fr.vals[t] = Val{T: "0", Ty: t.Type(), Addr: a, Taint: xv.Taint}
 
 	case *ssa.IndexAddr:
 		xv := x.value(fr, t.X)
@@ -59,12 +60,12 @@ func (x *Executor) execInstr(fr *Frame, in ssa.Instruction, st *State, reach str
 		case *types.Slice:
 			x.check(fr, "index", fmt.Sprintf("(and (<= 0 %s) (< %s (s.len %s)))", iv.T, iv.T, xv.T), reach, "slice index in range")
 			idx := u.define("ix", "Int", fmt.Sprintf("(sidx (s.off %s) %s)", xv.T, iv.T))
-			fr.vals[t] = Val{T: "0", Ty: t.Type(), Addr: &Addr{Kind: "elem", Ref: fmt.Sprintf("(s.base %s)", xv.T), ElemT: xt.Elem(), Idx: idx, Ty: xt.Elem()}}
+			fr.vals[t] = Val{T: "0", Ty: t.Type(), Addr: &Addr{Kind: "elem", Ref: fmt.Sprintf("(s.base %s)", xv.T), ElemT: xt.Elem(), Idx: idx, Ty: xt.Elem()}, Taint: xv.Taint}
 		case *types.Pointer:
 			at := xt.Elem().Underlying().(*types.Array)
 			x.check(fr, "index", fmt.Sprintf("(and (<= 0 %s) (< %s %d))", iv.T, iv.T, at.Len()), reach, "array index in range")
 			if xv.Addr != nil && xv.Addr.Kind != "arrobj" {
-				fr.vals[t] = Val{T: "0", Ty: t.Type(), Addr: xv.Addr.extend(pathStep{field: -1, idx: iv.T, arrT: xt.Elem()}, at.Elem())}
+				fr.vals[t] = Val{T: "0", Ty: t.Type(), Addr: xv.Addr.extend(pathStep{field: -1, idx: iv.T, arrT: xt.Elem()}, at.Elem()), Taint: xv.Taint}
 			} else {
 				ref := xv.T
 				if xv.Addr != nil {
@@ -72,7 +73,7 @@ func (x *Executor) execInstr(fr *Frame, in ssa.Instruction, st *State, reach str
 				} else {
 					x.check(fr, "nil", fmt.Sprintf("(not (= %s 0))", ref), reach, "nil dereference (array index)")
 				}
-				fr.vals[t] = Val{T: "0", Ty: t.Type(), Addr: &Addr{Kind: "elem", Ref: ref, ElemT: at.Elem(), Idx: iv.T, Ty: at.Elem()}}
+				fr.vals[t] = Val{T: "0", Ty: t.Type(), Addr: &Addr{Kind: "elem", Ref: ref, ElemT: at.Elem(), Idx: iv.T, Ty: at.Elem()}, Taint: xv.Taint}
 			}
 		default:
 			u.unsupported("IndexAddr on " + t.X.Type().String())
@@ -168,11 +169,13 @@ func (x *Executor) execInstr(fr *Frame, in ssa.Instruction, st *State, reach str
 
 	case *ssa.MakeInterface:
 		xv := x.value(fr, t.X)
-		fr.vals[t] = x.makeIface(xv, t.X.Type(), t.Type())
+		mi := x.makeIface(xv, t.X.Type(), t.Type())
+		mi.Taint = xv.Taint
+		fr.vals[t] = mi
 
 	case *ssa.ChangeInterface:
 		xv := x.value(fr, t.X)
-		fr.vals[t] = Val{T: xv.T, Ty: t.Type()}
+		fr.vals[t] = Val{T: xv.T, Ty: t.Type(), Taint: xv.Taint}
 
 	case *ssa.ChangeType:
 		xv := x.value(fr, t.X)
@@ -203,14 +206,23 @@ func (x *Executor) execInstr(fr *Frame, in ssa.Instruction, st *State, reach str
 
 	case *ssa.Convert:
 		xv := x.value(fr, t.X)
-		fr.vals[t] = x.convert(fr, st, xv, t.X.Type(), t.Type(), reach)
+		cv := x.convert(fr, st, xv, t.X.Type(), t.Type(), reach)
+		cv.Taint = unionTaint(cv, xv)
+		fr.vals[t] = cv
 
 	case *ssa.TypeAssert:
 		xv := x.value(fr, t.X)
-		fr.vals[t] = x.typeAssert(fr, st, xv, t, reach)
+		ta := x.typeAssert(fr, st, xv, t, reach)
+		ta.Taint = xv.Taint
+		for i := range ta.Tup {
+			ta.Tup[i].Taint = xv.Taint
+		}
+		fr.vals[t] = ta
 
 	case *ssa.Slice:
-		fr.vals[t] = x.execSlice(fr, st, t, reach)
+		sv := x.execSlice(fr, st, t, reach)
+		sv.Taint = x.value(fr, t.X).Taint
+		fr.vals[t] = sv
 
 	case *ssa.MakeSlice:
 		lv, cv := x.value(fr, t.Len), x.value(fr, t.Cap)
@@ -237,6 +249,7 @@ func (x *Executor) execInstr(fr *Frame, in ssa.Instruction, st *State, reach str
 		mv, kv, vv := x.value(fr, t.Map), x.value(fr, t.Key), x.value(fr, t.Value)
 		mt := t.Map.Type().Underlying().(*types.Map)
 		x.check(fr, "nilmap", fmt.Sprintf("(not (= %s 0))", mv.T), reach, "assignment to entry in nil map")
+		x.escape(st, kv, vv)
 		x.mapStore(st, mt, mv.T, x.mapKey(kv, mt.Key()), vv.T)
 
 	case *ssa.Lookup:
@@ -285,7 +298,7 @@ func (x *Executor) execInstr(fr *Frame, in ssa.Instruction, st *State, reach str
 		for _, b := range t.Bindings {
 			bind = append(bind, x.value(fr, b))
 		}
-		fr.vals[t] = Val{T: u.funcConst(fn), Ty: t.Type(), Fn: fn, Bind: bind}
+		fr.vals[t] = Val{T: u.funcConst(fn), Ty: t.Type(), Fn: fn, Bind: bind, Taint: unionTaint(bind...)}
 
 	case *ssa.Go:
 		u.unsupported("go statement")
@@ -421,11 +434,19 @@ func (x *Executor) binop(fr *Frame, op token.Token, a, b Val, resTy types.Type, 
 		return x.arithResult(fr, fmt.Sprintf("(* %s %s)", a.T, b.T), resTy, reach, "multiplication")
 	case token.QUO:
 		x.check(fr, "div", fmt.Sprintf("(not (= %s 0))", b.T), reach, "division by zero")
-		// MinInt / -1 wraps
-		return Val{T: u.define("dv", "Int", u.wrap(fmt.Sprintf("(tdiv %s %s)", a.T, b.T), resTy)), Ty: resTy}
+		// the only overflowing case is MinInt / -1 (wraps to MinInt); otherwise |a/b| <= |a|
+		lo, _, okB := intBounds(resTy)
+		var dv string
+		if okB && lo.Sign() < 0 {
+			dv = u.define("dv", "Int", fmt.Sprintf("(ite (and (= %s %s) (= %s (- 1))) %s %s)", a.T, smtInt(lo), b.T, smtInt(lo), divTerm(a.T, b.T)))
+		} else {
+			dv = u.define("dv", "Int", divTerm(a.T, b.T))
+		}
+		u.assume(u.inRange(dv, resTy))
+		return Val{T: dv, Ty: resTy}
 	case token.REM:
 		x.check(fr, "div", fmt.Sprintf("(not (= %s 0))", b.T), reach, "division by zero")
-		return Val{T: u.define("rm", "Int", fmt.Sprintf("(tmod %s %s)", a.T, b.T)), Ty: resTy}
+		return Val{T: u.define("rm", "Int", modTerm(a.T, b.T)), Ty: resTy}
 	case token.SHL, token.SHR:
 		// shift count: constant or bounded
 		lo, hi, ok := intBounds(resTy)
